@@ -317,7 +317,7 @@ func init() {
 		ID: "C13", Level: "exploration",
 		Rule: "metamorphic + reference: (1) every absolute expression of the slice is evaluated from EVERY node of every document and must give the result it gives from the root (and the reference denotation); (2) for every relative path p and every node n, Select(n,p) and Select(root, addr(n)/p) must both equal the reference set; (3) P[true()], (P), P|P, not(not(P)) vs boolean(P), also placed as second operand after Q in Q|P, Q and P, Q or P, *[Q][P]; non-trivial = start node other than the root / non-empty denotation; distinct = distinct expressions",
 		Assumptions:    []string{"hand-written reference evaluator (so that 'both sides equally wrong' cannot pass)", "lawful NodeNavigator", "bounded trees"},
-		Budget:         budget(90*time.Second, 25*time.Minute),
+		Budget:         budget(200*time.Second, 25*time.Minute),
 		MinRefOutcomes: 2,
 		Spaces:         c13Spaces,
 	})
